@@ -47,6 +47,7 @@ func setupC09(x *Ctx) {
 		trustModes:   []string{"paired", "auto", "none"},
 		storedIDs:    []string{"", "PEERID", "OTHER", "PEERID ", "id\"with}quotes{", "a-rather-long-ship-id-0123456789-0123456789-0123456789-0123456789"},
 		presented:    []string{pres.frame},
+		warmup:       0.5,
 		roles:        []string{"server", "client"},
 		amOrders:     []string{"normal", "reply-first", "reply-twice", "early-reply", "combined", "no-request"},
 		noAmDeviants: true,
